@@ -104,6 +104,9 @@ pub enum Obstacle {
     /// component's own (unweighted) metric, computed by the harness: a cylinder that depends on
     /// one component only — also on one the space metric ignores (weight 0).
     CompBall { comp: usize, c: Vec<f64>, r: f64 },
+    /// Complement of an axis-aligned box on the leading real-vector coordinates ("workspace
+    /// walls"): invalid iff x[i] < lo[i] or x[i] > hi[i] for some i.
+    Outside { lo: Vec<f64>, hi: Vec<f64> },
 }
 
 /// "the `comp`-th component lies within `r` of `c`" (component's own unweighted metric)
@@ -131,6 +134,10 @@ pub enum GoalSampler {
     /// goal's component condition names, else the first component of weight 0 — so that goal
     /// samples lie at distance 0 from each other while differing in validity ("turn in place")
     Turn,
+    /// harness-owned stream; like `Harness`, but every real-vector block of the draw is reflected
+    /// through the target (2 t - x): the same distance from the target, and — for a target near a
+    /// face of the box — frequently OUTSIDE the bounds of the space (a goal region that sticks out)
+    Reflect,
 }
 
 #[derive(Serialize, Deserialize, Clone, Debug, PartialEq)]
